@@ -6,7 +6,8 @@ t=/tmp/sc-$s; rm -rf $t /tmp/scv-$s; mkdir -p $t /tmp/scv-$s
 rsync -a --exclude=.git /repo/ $t/
 (cd $t && git apply --whitespace=nowarn /verif/seeded/$s/$which) || { echo "apply failed"; exit 2; }
 cp /verif/known_findings.json /tmp/scv-$s/
-if [ $p = C19 ]; then LUNAR_REPO=$t LUNAR_VERIF_OUT=/tmp/scv-$s python3 /verif/pycheck/c19.py --tier quick 2>&1 | grep -A1 '^VIOLATION' | cut -c1-900
-else (cd /verif && $bin -p $p -repo $t -verif /tmp/scv-$s 2>&1 | grep -A1 '^VIOLATION' | cut -c1-900); fi
-echo "rc=${PIPESTATUS[0]}"
+if [ $p = C19 ]; then out=$(LUNAR_REPO=$t LUNAR_VERIF_OUT=/tmp/scv-$s python3 /verif/pycheck/c19.py --tier quick 2>&1); rc=$?
+else out=$(cd /verif && $bin -p $p -repo $t -verif /tmp/scv-$s 2>&1); rc=$?; fi
+echo "$out" | grep -A1 '^VIOLATION' | cut -c1-900
+echo "check exit code: $rc"
 rm -rf $t /tmp/scv-$s
